@@ -1,6 +1,7 @@
 package main
 
 import (
+	"go/types"
 	"fmt"
 	"go/ast"
 	"go/token"
@@ -74,6 +75,56 @@ func runC10Effects(c *core.Ctx) {
 					}
 					return taken == neg
 				}}}})
+		// The guard must see the value that is actually stored in the Assign node:
+		// after every (re)definition of the variable passed as the right-hand side
+		// to a.NewAssign, the guard on that variable is passed before success.
+		var valueVars []types.Object
+		ast.Inspect(fl.F.Decl.Body, func(m ast.Node) bool {
+			call, ok := m.(*ast.CallExpr)
+			if ok && nameIs(fl, call, "NewAssign") && len(call.Args) == 3 {
+				if o := fl.Obj(call.Args[2]); o != nil {
+					valueVars = append(valueVars, o)
+				}
+			}
+			return true
+		})
+		if len(valueVars) == 0 {
+			c.Undecided("P4b.assign.value", fl.F.Name(), "the statement's value is a local passed to a.NewAssign", "no a.NewAssign(op, lhs, <local>) call found")
+		}
+		nDefs := 0
+		for _, v := range valueVars {
+			defs := c15Defs(fl, v)
+			for _, d := range defs {
+				dn := d.Node
+				nDefs++
+				k.mustPass("P4b.assign.value", fl.F.Name()+"[value defined: "+core.Src(k.g.Fset, dn)+"]",
+					"the effect guard is applied to the value that ends up in the Assign node: after each definition of that variable the guard `p.funcEffect.WeakerThan(value.Effect())` is passed before success (a guard that only sees the left-hand side lets `x = this.impure!()` into a pure function)",
+					fl, core.Query{
+						Start: func(n ast.Node) bool { return c15Within(n, dn) && !c15IsCompound(n) },
+						Exit:  fl.SuccessReturn, FuncEnd: true,
+						Events: []core.Event{
+							{Node: func(n ast.Node) bool {
+								for _, d2 := range defs {
+									if d2.Node != dn && c15Within(n, d2.Node) && !c15IsCompound(n) {
+										return true
+									}
+								}
+								return false
+							}},
+							{Edge: func(cond ast.Expr, ci *core.CondInfo, taken bool) bool {
+								x, neg := boolCond(cond)
+								call, ok := x.(*ast.CallExpr)
+								if !ok || len(call.Args) != 1 || !callNamedOn(fl, x, "WeakerThan", func(r ast.Expr) bool { return selField(fl, r, "funcEffect") }) {
+									return false
+								}
+								if !callNamedOn(fl, call.Args[0], "Effect", func(r ast.Expr) bool { return fl.Obj(r) == v }) {
+									return false
+								}
+								return taken == neg
+							}}}})
+			}
+		}
+		c.Floor("P4b.assign.value", "definitions of the Assign node's value in parseAssignNode", nDefs, 2)
 		// LHS rooted at this/args in a non-impure function is rejected.
 		var ifCannot *ast.IfStmt
 		ast.Inspect(fl.F.Decl.Body, func(m ast.Node) bool {
